@@ -739,7 +739,7 @@ class Gen:
         pts = []
         for _ in range(n):
             pts.append({
-                "t": rng.choice([0.0, 0.5, 1.0, 2.25, 3.0]),
+                "t": rng.choice([0.0, 0.5, 1.0, 2.25, 3.0, -0.75, -2.0]),
                 "dt": rng.choice([0.0, 2.0 ** -40, 0.0625, 1.0, -0.5, 2.0 ** 20, 0.01]),
                 "states": {x: rng.randrange(-16, 17) / 8.0 for x in s["states"]},
                 "params": {x: rng.randrange(-16, 17) / 8.0 for x in s["parameters"]},
